@@ -1,4 +1,5 @@
 import OjgVerif.Json.BufModel
+import OjgVerif.Json.BufModelV
 import OjgVerif.Json.SwitchFacts
 import OjgVerif.Gen.JsonFast
 /-! # The buffer-level model against the source of the fast paths
@@ -81,5 +82,55 @@ theorem ojParser_loops_are_source :
 
 theorem genParser_loops_are_source :
     Gen.JsonFast.genParserRangeLoops = modelLoops.map (fun p => (p.1.mapName, p.2.goName)) := by decide +kernel
+
+/-- the same nine clauses of (*oj.Validator).validateBuffer (`Json/BufModelV.lean`: `caseQuoteV`, `i = 0` in
+`numNewline`, no loops in `valDigit` / `numDot`) -/
+def expectedFastValidator : List (String × List String) := [
+  ("skipNewline", ["p.line++", "p.noff = off", "for i, b = range buf[off+1:] {", "if spaceMap[b] != skipChar {", "break", "}", "}", "off += i", "continue"]),
+  ("keyQuote", ["i = 0", "for i, b = range buf[off+1:] {", "if stringMap[b] != strOk {", "break", "}", "}", "off += i", "if b == '\"' && 0 < i {", "off++", "p.mode = colonMap", "} else {", "p.mode = stringMap", "p.nextMode = colonMap", "}", "continue"]),
+  ("valQuote", ["i = 0", "for i, b = range buf[off+1:] {", "if stringMap[b] != strOk {", "break", "}", "}", "off += i", "if b == '\"' && 0 < i {", "off++", "p.mode = afterMap", "} else {", "p.mode = stringMap", "p.nextMode = afterMap", "continue", "}"]),
+  ("valDigit", ["p.mode = digitMap", "continue"]),
+  ("valNull", ["if off+4 <= len(buf) && string(buf[off:off+4]) == \"null\" {", "off += 3", "p.mode = afterMap", "} else {", "p.mode = nullMap", "p.ri = 0", "}"]),
+  ("valTrue", ["if off+4 <= len(buf) && string(buf[off:off+4]) == \"true\" {", "off += 3", "p.mode = afterMap", "} else {", "p.mode = trueMap", "p.ri = 0", "}"]),
+  ("valFalse", ["if off+5 <= len(buf) && string(buf[off:off+5]) == \"false\" {", "off += 4", "p.mode = afterMap", "} else {", "p.mode = falseMap", "p.ri = 0", "}"]),
+  ("numDot", ["p.mode = dotMap", "continue"]),
+  ("numNewline", ["p.line++", "p.noff = off", "p.mode = afterMap", "i = 0", "for i, b = range buf[off+1:] {", "if spaceMap[b] != skipChar {", "break", "}", "}", "off += i"])
+]
+
+/-- … and of (*oj.Tokenizer).tokenizeBuffer (`intLoopT` in `valDigit`, the parser's statements elsewhere) -/
+def expectedFastTokenizer : List (String × List String) := [
+  ("skipNewline", ["t.line++", "t.noff = off", "for i, b = range buf[off+1:] {", "if spaceMap[b] != skipChar {", "break", "}", "}", "off += i", "continue"]),
+  ("keyQuote", ["start := off + 1", "if len(buf) <= start {", "t.tmp = t.tmp[:0]", "t.mode = stringMap", "t.nextMode = colonMap", "continue", "}", "for i, b = range buf[off+1:] {", "if stringMap[b] != strOk {", "break", "}", "}", "off += i", "if b == '\"' {", "off++", "t.handler.Key(string(buf[start:off]))", "t.mode = colonMap", "} else {", "t.tmp = t.tmp[:0]", "t.tmp = append(t.tmp, buf[start:off+1]...)", "t.mode = stringMap", "t.nextMode = colonMap", "}", "continue"]),
+  ("valQuote", ["start := off + 1", "if len(buf) <= start {", "t.tmp = t.tmp[:0]", "t.mode = stringMap", "t.nextMode = afterMap", "continue", "}", "for i, b = range buf[off+1:] {", "if stringMap[b] != strOk {", "break", "}", "}", "off += i", "if b == '\"' {", "off++", "t.handler.String(string(buf[start:off]))", "t.mode = afterMap", "} else {", "t.tmp = t.tmp[:0]", "t.tmp = append(t.tmp, buf[start:off+1]...)", "t.mode = stringMap", "t.nextMode = afterMap", "continue", "}"]),
+  ("valDigit", ["t.num.Reset()", "t.mode = digitMap", "t.num.I = uint64(b - '0')", "for i, b = range buf[off+1:] {", "if digitMap[b] != numDigit {", "break", "}", "if gen.BigLimit <= t.num.I {", "t.num.AddDigit(b)", "if 0 < len(t.num.BigBuf) {", "break", "}", "continue", "}", "t.num.I = t.num.I*10 + uint64(b-'0')", "}", "if digitMap[b] == numDigit {", "off++", "}", "off += i"]),
+  ("valNull", ["if off+4 <= len(buf) && string(buf[off:off+4]) == \"null\" {", "off += 3", "t.mode = afterMap", "t.handler.Null()", "} else {", "t.mode = nullMap", "t.ri = 0", "}"]),
+  ("valTrue", ["if off+4 <= len(buf) && string(buf[off:off+4]) == \"true\" {", "off += 3", "t.mode = afterMap", "t.handler.Bool(true)", "} else {", "t.mode = trueMap", "t.ri = 0", "}"]),
+  ("valFalse", ["if off+5 <= len(buf) && string(buf[off:off+5]) == \"false\" {", "off += 4", "t.mode = afterMap", "t.handler.Bool(false)", "} else {", "t.mode = falseMap", "t.ri = 0", "}"]),
+  ("numDot", ["if 0 < len(t.num.BigBuf) {", "t.num.BigBuf = append(t.num.BigBuf, b)", "t.mode = dotMap", "continue", "}", "for i, b = range buf[off+1:] {", "if digitMap[b] != numDigit {", "break", "}", "if gen.BigLimit < t.num.Div {", "t.num.AddFrac(b)", "break", "}", "t.num.Frac = t.num.Frac*10 + uint64(b-'0')", "t.num.Div *= 10.0", "}", "off += i", "if digitMap[b] == numDigit {", "off++", "}", "if t.num.Div == 1 {", "t.mode = dotMap", "} else {", "t.mode = fracMap", "}"]),
+  ("numNewline", ["t.handleNum()", "t.line++", "t.noff = off", "t.mode = afterMap", "for i, b = range buf[off+1:] {", "if spaceMap[b] != skipChar {", "break", "}", "}", "off += i"])
+]
+
+theorem ojValidator_fast_is_source : Gen.JsonFast.ojValidatorFast = expectedFastValidator := by decide +kernel
+theorem ojTokenizer_fast_is_source : Gen.JsonFast.ojTokenizerFast = expectedFastTokenizer := by decide +kernel
+theorem ojValidator_loop_is_source : Gen.JsonFast.ojValidatorLoop = expectedLoop := by decide +kernel
+theorem ojTokenizer_loop_is_source : Gen.JsonFast.ojTokenizerLoop = expectedLoop := by decide +kernel
+
+theorem ojValidator_lits_are_source :
+    Gen.JsonFast.ojValidatorLits = [litFact "valNull" litNull, litFact "valTrue" litTrue, litFact "valFalse" litFalse] := by
+  decide +kernel
+
+theorem ojTokenizer_lits_are_source :
+    Gen.JsonFast.ojTokenizerLits = [litFact "valNull" litNull, litFact "valTrue" litTrue, litFact "valFalse" litFalse] := by
+  decide +kernel
+
+/-- the validator has four range loops (no digit loops) -/
+def modelLoopsV : List (Mode × Act) :=
+  [(.space, .skipChar), (.string, .strOk), (.string, .strOk), (.space, .skipChar)]
+
+theorem ojValidator_loops_are_source :
+    Gen.JsonFast.ojValidatorRangeLoops = modelLoopsV.map (fun p => (p.1.mapName, p.2.goName)) := by decide +kernel
+
+theorem ojTokenizer_loops_are_source :
+    Gen.JsonFast.ojTokenizerRangeLoops = modelLoops.map (fun p => (p.1.mapName, p.2.goName)) := by decide +kernel
 
 end OjgVerif.Json
